@@ -88,6 +88,8 @@ func installTrace() {
 	})
 }
 
+var watchdogLimitNs = int64(120 * time.Second)
+
 // callWithWatchdog runs f; verdict "ok", "deadlock" (confirmed), or "inconclusive".
 func callWithWatchdog(f func()) (verdict string, detail string, pv any) {
 	done := make(chan struct{})
@@ -100,7 +102,9 @@ func callWithWatchdog(f func()) (verdict string, detail string, pv any) {
 		}()
 		f()
 	}()
-	limit := 120 * time.Second
+	// after a first confirmed deadlock in this process later calls get a short limit: one witness is enough,
+	// and a library that blocks forever must not make the check itself take forever
+	limit := time.Duration(atomic.LoadInt64(&watchdogLimitNs))
 	select {
 	case <-done:
 		return "ok", "", pv
@@ -115,6 +119,7 @@ func callWithWatchdog(f func()) (verdict string, detail string, pv any) {
 	}
 	d2 := parGoroutines()
 	if d1 == d2 && d1 != "" && allBlockedOnChannels(d1) {
+		atomic.StoreInt64(&watchdogLimitNs, int64(4*time.Second))
 		return "deadlock", d1, nil
 	}
 	return "inconclusive", "call still running but not provably blocked:\n" + d2, nil
